@@ -216,4 +216,36 @@ def mergeLocs (ls : List Loc) : Except Unit (Option Loc) :=
     else .error ()
   | _, _ => .ok none
 
+/-! ### `module_ir`'s hand-built locations (round 3)
+
+`module_ir` builds 15 locations by hand from the locations of nodes it already has:
+`SourceLocation(a.start, b.end)` (an expression from its first to its last operand, a type
+with its array dimensions, an `external` body from `Indent` to `Dedent`),
+`SourceLocation(op.start, op.start)` (the phantom `0` of a unary minus),
+`SourceLocation(position, position)` (the prelude import),
+`SourceLocation(open.end, close.start)` (the empty `[]` of an automatic dimension).  All of
+them are: one endpoint of a known location, then one endpoint of a known location, through the
+`SourceLocation` constructor with its two assertions. -/
+
+/-- Which endpoint `x.source_location.start` / `x.source_location.end` selects. -/
+inductive End
+  | start
+  | stop
+deriving DecidableEq, Repr
+
+def Loc.pos (l : Loc) : End → Nat × Nat
+  | .start => (l.sl, l.sc)
+  | .stop => (l.el, l.ec)
+
+/-- `parser_types.SourceLocation(start, end)` for two positions: `assert start <= end` and
+`assert (not start and not end) or (start and end)` (`bool(position) = bool(line)`); not
+synthetic. -/
+def mkLoc (p q : Nat × Nat) : Except Unit Loc :=
+  if posLe p.1 p.2 q.1 q.2 && ((p.1 == 0) == (q.1 == 0)) then .ok ⟨p.1, p.2, q.1, q.2, false⟩
+  else .error ()
+
+/-- `SourceLocation(a.<ea>, b.<eb>)`. -/
+def spanLoc (a : Loc) (ea : End) (b : Loc) (eb : End) : Except Unit Loc :=
+  mkLoc (a.pos ea) (b.pos eb)
+
 end Emboss.Pipeline
